@@ -124,6 +124,18 @@ def schema_targets(pdf, d):
         out[f"sk_merge_semi_{bc}"] = lambda bc=bc: d.merge(small, on="a", how="leftsemi", broadcast=bc)
         out[f"sk_merge_semi_parts_{bc}"] = lambda bc=bc: d.merge(small, on="a", how="leftsemi", broadcast=bc).partitions[[1, 3]]
         out[f"sk_merge_outer_parts_{bc}"] = lambda bc=bc: d.merge(small, on="a", how="left", broadcast=bc).partitions[[0, 2]]
+    # column selections through renames whose new labels collide with old ones
+    out["sk_rename_swap_sel"] = lambda: d.rename(columns={"a": "b", "b": "a"})["a"]
+    out["sk_rename_swap_sel2"] = lambda: d.rename(columns={"a": "b", "b": "a"})[["b", "c"]]
+    out["sk_rename_rotate_sel"] = lambda: d.rename(columns={"a": "b", "b": "c", "c": "a"})[["a", "rid"]]
+    out["sk_rename_rotate_sel2"] = lambda: d.rename(columns={"a": "b", "b": "c", "c": "a"})["c"]
+    out["sk_rename_shift_sel"] = lambda: d.rename(columns={"a": "b", "b": "bb"})["b"]
+    out["sk_rename_shift_sel2"] = lambda: d.rename(columns={"a": "b", "b": "bb"})[["bb", "rid"]]
+    out["sk_rename_foreign_key_sel"] = lambda: d.rename(columns={"zzz": "q", "a": "A"})[["A", "b"]]
+    out["sk_rename_identity_sel"] = lambda: d.rename(columns={"a": "a"})[["a", "c"]]
+    out["sk_add_suffix_empty_sel"] = lambda: d.add_suffix("")[["a"]]
+    out["sk_add_prefix_sel"] = lambda: d.add_prefix("p_")[["p_a", "p_rid"]]
+    out["sk_rename_swap_filter"] = lambda: (lambda e: e[e.a > 3.0][["a", "b"]])(d.rename(columns={"a": "b", "b": "a"}))
     out["sk_sort_ignore_index"] = lambda: d.set_index("b").sort_values("c", ignore_index=True)
     out["sk_sort_ignore_index_str"] = lambda: d.set_index("s").sort_values("rid", ignore_index=True)
     out["sk_value_counts"] = lambda: d.a.value_counts()
@@ -296,13 +308,14 @@ def run(case, mode, cid, tier):
         name = case["targeted"]
         if name not in tg:
             return {"status": "undecided", "counters": {"unknown_target": 1}}
+        method = "tasks"
         try:
-            coll = tg[name]()
+            with dask.config.set({"dataframe.shuffle.method": method}):
+                coll = tg[name]()
         except Exception as ex:
             return {"status": "refused", "counters": {"build_refused": 1}, "sets": {"build_refusals": [f"{name}:{type(ex).__name__}"]}}
         values = [(name, coll)]
         tag = f"targeted:{name}"
-        method = "tasks"
     else:
         prog = case["prog"] if "prog" in case else progcase.gen_prog((cid,) + tuple(case["gen"]), profile=case.get("profile", "default"))
         b = progcase.Built(prog).build_sources()
